@@ -56,8 +56,11 @@ fn main() {
         "record-corpus" => trainer_cases::record_corpus(&a),
         "record-mecab-lines" => trainer_cases::record_mecab_lines(&a),
         "record-train" => train::record(&a),
+        "replay-train" => train::replay(&a),
+        "cli-train" => train::cli_train(&a),
         "record-mecab" => trainer_cases::record_mecab(&a),
         "cli-pipeline" => cli::pipeline(&a),
+        "cli-histories" => cli::histories(&a),
         "record-dict" => dictops::record(&a),
         "replay-dict" => dictops::replay(&a),
         _ => {
